@@ -93,7 +93,7 @@ def main():
                 if status == "?":
                     t0 = time.time()
                     rc, out = sh([os.path.join(VERIF, "bin", "wv"), "check", r["property"], "--tier", r.get("tier", "quick")], cwd=VERIF,
-                                 env=dict(ENV, WV_REPO=root, WV_VERIF=os.path.join(scratch, "verif-out")))
+                                 env=dict(ENV, WV_REPO=root, WV_HOME=VERIF, WV_VERIF=os.path.join(scratch, "verif-out")))
                     dt = time.time() - t0
                     viol = [l for l in out.splitlines() if l.startswith("FAIL[")]
                     if r.get("kind", "mutant") == "benign":
